@@ -195,7 +195,8 @@ pub fn case_strategy(max_blocks: usize) -> impl Strategy<Value = Case> {
 }
 
 /// One fixed long case per run (worker 0): a linear chain longer than two check point intervals,
-/// the service started after the history; the requests sit at the batch and interval boundaries.
+/// the service started four deliveries before the end and waited for after each of them; the requests
+/// sit at the batch and interval boundaries.
 pub fn long_case(blocks: u16) -> Case {
     let g = |k, s| Req::Get(k, s);
     let n = blocks as u64;
@@ -203,8 +204,8 @@ pub fn long_case(blocks: u16) -> Case {
     Case {
         variant: 2,
         plan: TreePlan { steps: vec![] },
-        filter_start: u16::MAX,
-        filter_waits: vec![255],
+        filter_start: 0xfffe,
+        filter_waits: vec![1],
         rounds: vec![vec![]],
         after_reorg: vec![],
         caught_up: vec![
@@ -968,6 +969,9 @@ pub fn prop(case: &Case, st: &mut Stats) -> Verdict {
             None => pick_idx(case.filter_start as u32 * 20000, nblocks + 1),
         },
         u16::MAX => nblocks,
+        // the long chain: a few deliveries before the end, so that the chain snapshot the handler reads
+        // the latest-built marker from is refreshed after the builder's first pass
+        0xfffe => nblocks.saturating_sub(4),
         s => pick_idx(s as u32, nblocks + 1),
     };
     let mut w = World {
